@@ -55,14 +55,15 @@ THEOREMS = [
     "FaxVerif.C07.leak_counterexample_enum_first_wins",
     "FaxVerif.C07.leak_counterexample_cross_backend_reset",
     "FaxVerif.C07.leak_counterexample_cross_backend_new",
-    "FaxVerif.C07.leak_counterexample_shared_default",
+    "FaxVerif.C07.addXmd_invisible_to_new_executors",
+    "FaxVerif.C07.shared_default_repaired",
     "FaxVerif.C07.leak_counterexample_found_md",
     "FaxVerif.C07.leak_counterexample_job_blocks",
     "FaxVerif.C07.leak_counterexample_extended_md",
     "FaxVerif.C07.leak_counterexample_name_counter",
     "FaxVerif.C07.retranslation_indep_on_partial",
     "FaxVerif.C07.retranslation_indep_new_partial",
-    "FaxVerif.C07.leak_counterexample_reused_ast",
+    "FaxVerif.C07.reused_ast_repaired",
 ]
 RULE = (
     "case = (history of <=8 (quick) / <=14 (thorough) operations, probe): operations are `new executor` of any of the 3 "
@@ -82,9 +83,13 @@ RULE = (
     "declares for itself with return types inside {int,float,double} and outside it {short, unsigned int, unsigned long, "
     "long, long double}, default-typed methods, constants, + - * /, unary minus, 26 documented math functions, C++ "
     "functions the query declares under fresh names and under names of math functions); a history query of that kind "
-    "prefers the function names and return types the probe uses. A quarter of the cases hand the probe's own AST object "
+    "prefers the function names and return types the probe uses. A quarter of the cases hand AST nodes of the probe "
     "to an executor one or more times before the probe (operations carrying the same `obj` label share one Python "
-    "object) — only for queries without MetaData (with MetaData: listed finding). After every operation the harness also "
+    "object): the probe's own object, with or without MetaData, or (`inner`) the query object the probe is derived from "
+    "and other queries derived from it — the inner query with MetaData, Where, math and declared-function calls. "
+    "add_extended_md draws the kinds the probe's metadata uses on every executor but the probe's own (reset or never "
+    "reset, created before or after); a probe that uses a kind its caller does not register meets such a registration "
+    "on another executor in 70% of its cases. After every operation the harness also "
     "fingerprints ALL module- and class-level data and mutable default arguments of the package's modules outside the "
     "model's state: any change is a broken correspondence."
 )
@@ -96,7 +101,7 @@ TRUSTED_BASE = [
 ]
 ASSUMPTIONS = [
     "queries are handled as (add_extended_md;) apply_ast_transformations; write_cpp_files on one executor, one after the other (no interleaving, no threads)",
-    "a query arrives as a freshly parsed AST, or — if it carries no MetaData — as an AST object that was handed to an executor before (with MetaData the second translation loses the metadata: theorem leak_counterexample_reused_ast and the listed finding)",
+    "a query arrives as a freshly parsed AST, as an AST object that was handed to an executor before, or as a query built around such an object (apply_ast_transformations works on a copy since fix 1c4553a; theorems retranslation_indep_*_partial, reused_ast_repaired)",
     "generated names only need to be consistent: results are compared up to one bijective renumbering of identifiers that end in digits",
     "what a translation shows its caller = ending (ok / stage + exception class), the rendered files, extended_md(k) for the kinds the caller registered, and the WARNING-and-above records the library logs while translating (compared like a file)",
     "the names one translation generates do not collide (unique_name = name ++ index is not injective, e.g. columns `x1` and `x`: theorem leak_counterexample_name_counter and the listed finding; the catalogue queries have no such column names)",
@@ -374,7 +379,7 @@ class _Fam:
         return f"{a} {self.rng.choice(['>', '<', '>=', '!='])} {b}"
 
 
-def gen_family_query(rng, b: str, expect_ok: Optional[bool] = None, methods=None, fn_bias=(), type_bias=(), allow_userfn=True, plain=False, force_userfn=False, decl: Optional[Dict[str, str]] = None, chain=False) -> Dict[str, Any]:
+def gen_family_query(rng, b: str, expect_ok: Optional[bool] = None, methods=None, fn_bias=(), type_bias=(), allow_userfn=True, plain=False, force_userfn=False, decl: Optional[Dict[str, str]] = None, chain=False, shapes=None) -> Dict[str, Any]:
     """a catalogue-like entry {b, q, keys, needs, end, fam, calls, types}.  `end` is the ending expected on the library
     as it is (arithmetic on a type the translator does not rank is refused in write_cpp_files): it only steers the
     generator, the judge is the fresh interpreter.  `fn_bias` / `type_bias`: function names / return types another
@@ -396,7 +401,7 @@ def gen_family_query(rng, b: str, expect_ok: Optional[bool] = None, methods=None
         if decl:
             g.decl.update(decl)
         coll = f"e.{g.coll}('{g.bank}')"
-        shape = rng.choice(["flat", "flat", "where", "vector", "count", "dict", "sum"])
+        shape = rng.choice(shapes or ["flat", "flat", "where", "vector", "count", "dict", "sum"])
         depth = rng.choice([1, 1, 2, 2, 3])
         if chain and decl:
             x, t = "", ""
@@ -445,23 +450,17 @@ def op_md(op: Dict[str, Any]) -> List[Dict[str, Any]]:
 
 def gen_derived(rng, b: str) -> Dict[str, Any]:
     """Queries DERIVED from one query object (`q.Where(..)`, `q.Select(..)` of an ObjectStream `q`): the AST of the
-    derived query contains the AST object of `q` as a sub-tree.  Returns the inner query and a function drawing outer
-    queries (text with the placeholder OBJ).  The inner query stays inside the class where the library as it is keeps
-    the caller's object usable: no MetaData, no Where and no call of a function by name inside it (listed findings
-    `derived query after a math call` / `two derived queries over a stream with a Where`)."""
+    derived query contains the AST object of `q` as a sub-tree.  Returns the inner query (catalogue-like entry) and a
+    function drawing outer queries (text with the placeholder OBJ).  The inner query is a stream of objects (the
+    collection, possibly filtered) or a stream of numbers drawn from the generated families in the shapes `flat` /
+    `where` — with MetaData, Where and calls of math / declared functions inside it (all of which the library rewrote in
+    place on the caller's object before fix 1c4553a)."""
     coll, bank, elem = FAM_ELEM[b]
     src = f"SelectMany(DS, lambda e: e.{coll}('{bank}'))"
-
-    def arith(v, depth):
-        if depth <= 0 or rng.random() < 0.3:
-            return rng.choice([f"{v}.{m}()" for m in FAM_DEFAULT_METHODS] + ["2", "0.5"])
-        if rng.random() < 0.15:
-            return f"(-{arith(v, depth - 1)})"
-        return f"({arith(v, depth - 1)} {rng.choice(['+', '-', '*', '/'])} {arith(v, depth - 1)})"
-
     g = _Fam(rng, b, FAM_METHODS_P, FAM_RANKED, (), False, USER_FN_NAMES, plain=True)
-    if rng.random() < 0.5:
-        inner_q, methods = src, []
+    if rng.random() < 0.35:
+        inner_q = src if rng.random() < 0.5 else f"Where({src}, lambda j: {g.cond('j')})"
+        inner = {"b": b, "q": inner_q, "keys": [[elem, m] for m in g.used], "needs": [], "end": "write", "calls": []}
 
         def outer():
             x = g.expr("k", rng.choice([1, 2]))[0]
@@ -469,7 +468,7 @@ def gen_derived(rng, b: str) -> Dict[str, Any]:
                 return f"Select(OBJ, lambda k: {x})"
             return f"Select(Where(OBJ, lambda k: {g.cond('k')}), lambda k: {x})"
     else:
-        inner_q = f"Select({src}, lambda j: {arith('j', rng.choice([0, 1, 2]))})"
+        inner = gen_family_query(rng, b, expect_ok=True if rng.random() < 0.85 else None, shapes=["flat", "where"])
 
         def outer():
             r = rng.random()
@@ -481,7 +480,7 @@ def gen_derived(rng, b: str) -> Dict[str, Any]:
                 return f"Select(OBJ, lambda x: {rng.choice([f'x * {c}', f'{f}(x)', f'{f}(x) + {c}', f'(-x)'])})"
             return f"Select(Where(OBJ, lambda x: x > {c}), lambda y: {rng.choice([f'y + {c}', f'{f}(y)'])})"
 
-    return {"inner": {"obj": "P", "q": inner_q, "md": []}, "outer": outer, "g": g, "elem": elem}
+    return {"inner": {"obj": "P", "q": inner["q"], "md": list(inner["needs"])}, "entry": inner, "outer": outer, "g": g, "elem": elem}
 
 
 # =============================================================================== generator
@@ -511,33 +510,23 @@ def gen_extras(rng, b: str, avoid_keys, avoid_tops, ok_intent: bool, allow_job=T
     return md
 
 
-def _plain_catalog(b):
-    """catalogue queries of the backend that carry no metadata (their AST object may be translated more than once)"""
-    return [k for k, v in CATALOG.items() if v["b"] == b and not v.get("needs")]
-
-
 def gen_case(rng, tier: str) -> Dict[str, Any]:
     b = rng.choice(["atlas", "atlas", "cms_aod", "cms_miniaod"])
-    # a quarter of the cases hand the probe's own AST object to an executor once or more BEFORE the probe (a caller
-    # evaluating one query object again): only for queries without MetaData — with MetaData the library as it is loses
-    # the metadata on the second translation (listed finding `reusedAst`)
+    # a quarter of the cases hand AST nodes of the probe to an executor once or more BEFORE the probe: the probe's own
+    # AST object (a caller evaluating one query object again), or — `derived` — the object the probe is derived from
+    # and other queries derived from it.  With or without MetaData.
     mode = rng.random()
     reuse = mode < 0.25
-    derived = gen_derived(rng, b) if mode < 0.08 else None
+    derived = gen_derived(rng, b) if mode < 0.09 else None
     r = rng.random()
     if derived:
-        # ... or queries derived from one query object: the probe is `outer(P)`, the history translates P itself
-        # and/or other queries derived from it
         q = derived["outer"]()
-        text = q.replace("OBJ", derived["inner"]["q"])
-        pc = {"b": b, "q": text, "keys": [[derived["elem"], m] for m in FAM_DEFAULT_METHODS if f".{m}()" in text], "needs": [], "end": "ok", "calls": sorted(set(derived["g"].calls)), "outer": q}
-    elif reuse:
-        if r < 0.6:
-            pc = gen_family_query(rng, b, plain=True)
-        else:
-            pc = CATALOG[rng.choice(_plain_catalog(b))]
+        inner = derived["entry"]
+        text = q.replace("OBJ", inner["q"])
+        pc = {"b": b, "q": text, "keys": [list(k) for k in inner["keys"]] + [[derived["elem"], m] for m in FAM_DEFAULT_METHODS if f".{m}()" in q], "needs": list(inner["needs"]),
+              "end": "ok" if inner["end"] == "ok" or inner["q"].startswith(("SelectMany", "Where")) else inner["end"], "calls": sorted(set(derived["g"].calls) | set(inner.get("calls", []))), "types": inner.get("types", []), "outer": q}
     elif r < 0.45:
-        if rng.random() < 0.6:
+        if rng.random() < 0.6 or reuse:
             pc = gen_family_query(rng, b, expect_ok=True)
         elif rng.random() < 0.5:
             pc = gen_family_query(rng, b, expect_ok=False)
@@ -547,7 +536,9 @@ def gen_case(rng, tier: str) -> Dict[str, Any]:
             rng.shuffle(ts)
             pc = gen_family_query(rng, b, decl=dict(zip(FAM_METHODS_P, ts)), chain=True)
     else:
-        eligible = [k for k, v in CATALOG.items() if v["b"] == b and (v.get("end", "ok") == "ok") == (rng.random() < 0.8)] or [k for k, v in CATALOG.items() if v["b"] == b]
+        # (an object translated before must not define an enum below a name the probe resolves: that is the listed enum leak)
+        ok_cat = [k for k, v in CATALOG.items() if v["b"] == b and not (reuse and any(m.get("metadata_type") == "define_enum" for m in v.get("needs", [])))]
+        eligible = [k for k in ok_cat if (CATALOG[k].get("end", "ok") == "ok") == (rng.random() < 0.8)] or ok_cat
         pc = CATALOG[rng.choice(eligible)]
     K = [list(k) for k in pc["keys"]]
     N = expr_names(pc["q"])
@@ -556,20 +547,22 @@ def gen_case(rng, tier: str) -> Dict[str, Any]:
     probe_x: Dict[str, str] = {}
     r = rng.random()
     if reuse:
-        pass
+        pass  # (the earlier translations of the object would have to register the kind too)
     elif r < 0.2:
         kind = rng.choice(XKINDS)
         probe_x = {kind: rng.choice(["img", "img2"])}
         if rng.random() < 0.7:
             probe_md.append(ext_md(rng, kind))
-    elif r < 0.3:
+    elif r < 0.35:
         probe_md.append(ext_md(rng, rng.choice(XKINDS)))  # not registered: must be refused in both worlds
-    if not reuse and rng.random() < 0.5:
-        probe_md = probe_md + gen_extras(rng, b, [], [], True, n_max=2)
-    if not reuse and rng.random() < 0.2 and not any(m.get("metadata_type") == "add_job_script" for m in probe_md):
+    if rng.random() < 0.5:
+        probe_md = probe_md + gen_extras(rng, b, [], N if reuse else [], True, n_max=2)
+    if rng.random() < 0.2 and not any(m.get("metadata_type") == "add_job_script" for m in probe_md):
         # one job-script block that depends on nothing and says so by leaving `depends_on` out
         n = rng.choice(sorted(JOBS))
         probe_md.append({"metadata_type": "add_job_script", "name": n, "script": list(JOBS[n])})
+    if derived:
+        derived["inner"]["md"] = list(probe_md)  # the metadata of a derived query is the inner query's
     n_sib: List[int] = []
 
     def sibling(eb):
@@ -583,11 +576,9 @@ def gen_case(rng, tier: str) -> Dict[str, Any]:
         the inner object alone / another query derived from it"""
         if derived:
             if rng.random() < 0.5:
-                return {"op": "tr", "e": e, "q": derived["inner"]["q"], "md": [], "obj": "P"}
+                return {"op": "tr", "e": e, "q": derived["inner"]["q"], "md": list(derived["inner"]["md"]), "obj": "P"}
             return {"op": "tr", "e": e, "q": derived["outer"](), "md": [], "inner": dict(derived["inner"])}
-        if pc.get("end", "ok") == "ok":
-            was_reset[e] = True
-        return {"op": "tr", "e": e, "q": pc["q"], "md": [], "obj": "P"}
+        return {"op": "tr", "e": e, "q": pc["q"], "md": list(probe_md), "obj": "P"}
 
     on_existing = rng.random() < 0.55
     nmax = 8 if tier == "quick" else 14
@@ -597,7 +588,7 @@ def gen_case(rng, tier: str) -> Dict[str, Any]:
     mixed = rng.random() < 0.45
     e0 = 0 if on_existing else None
     kinds_probe = {m["metadata_type"] for m in probe_md if m.get("metadata_type") in XKINDS}
-    was_reset: Dict[int, bool] = {}  # executors on which a translation was meant to succeed (they own their dict)
+    was_reset: Dict[int, bool] = {}  # executors on which a translation was meant to succeed
     while len(hist) < n:
         r = rng.random()
         if r < 0.15 or not backs:
@@ -610,13 +601,18 @@ def gen_case(rng, tier: str) -> Dict[str, Any]:
             e = e0
         eb = backs[e]
         if r < 0.25:
-            kinds = [k for k in XKINDS if k not in kinds_probe] or XKINDS
-            kind = rng.choice(kinds)
             must_succeed = False
-            if was_reset.get(e) and kinds_probe and rng.random() < 0.6:
-                # the probe's own kind, on an executor that no longer shares the default dict: benign iff a
-                # translation on it reaches reset() afterwards
-                kind, must_succeed = rng.choice(sorted(kinds_probe)), True
+            if on_existing and e == e0:
+                kinds = [k for k in XKINDS if k not in kinds_probe] or XKINDS
+                kind = rng.choice(kinds)
+                if kinds_probe and rng.random() < 0.5:
+                    # the probe's own kind on the probe's own executor: benign iff a translation on it reaches
+                    # reset() afterwards
+                    kind, must_succeed = rng.choice(sorted(kinds_probe)), True
+            else:
+                # on any other executor — reset or never reset, created before or after — every kind is the executor's
+                # own business: the kinds the probe's metadata uses are preferred
+                kind = rng.choice(sorted(kinds_probe)) if kinds_probe and rng.random() < 0.6 else rng.choice(XKINDS)
             hist.append({"op": "addx", "e": e, "x": {kind: rng.choice(["img", "h1", "h2"])}})
             if must_succeed or (rng.random() < 0.6 and len(hist) < n):
                 q = rng.choice([k for k, v in CATALOG.items() if v["b"] == eb and v.get("end", "ok") == "ok" and v.get("history", True)])
@@ -707,10 +703,20 @@ def gen_case(rng, tier: str) -> Dict[str, Any]:
         f = sibling(backs[e])
         first = next(i for i, o in enumerate(hist) if o["op"] == "new" and sum(1 for o2 in hist[: i + 1] if o2["op"] == "new") == e + 1)
         hist.insert(rng.randint(first + 1, len(hist)), {"op": "tr", "e": e, "q": f["q"], "md": list(f["needs"])})
+    unreg = sorted(k for k in kinds_probe if k not in probe_x)
+    if unreg and rng.random() < 0.7 and not any(o["op"] == "addx" and o["e"] != e0 and set(o["x"]) & set(unreg) for o in hist):
+        # a kind the probe's metadata uses without the caller registering it: some OTHER executor registers it, somewhere
+        # in the history (never the probe's own executor)
+        if not [i for i in range(len(backs)) if i != e0]:
+            hist.append({"op": "new", "b": rng.choice(BACKENDS) if mixed else b})
+            backs.append(hist[-1]["b"])
+        e = rng.choice([i for i in range(len(backs)) if i != e0])
+        first = next(i for i, o in enumerate(hist) if o["op"] == "new" and sum(1 for o2 in hist[: i + 1] if o2["op"] == "new") == e + 1)
+        hist.insert(rng.randint(first + 1, len(hist)), {"op": "addx", "e": e, "x": {rng.choice(unreg): rng.choice(["img", "h1", "h2"])}})
     probe = {"b": b, "on": e0, "x": probe_x, "q": pc["q"], "md": probe_md}
     if reuse:
         if derived:
-            probe.update({"q": pc["outer"], "inner": dict(derived["inner"])})
+            probe.update({"q": pc["outer"], "md": [], "inner": dict(derived["inner"])})
         else:
             probe["obj"] = "P"
         if not any(o.get("obj") == "P" or o.get("inner") for o in hist):
@@ -822,22 +828,18 @@ def x_model(x: Dict[str, str]) -> List[List[str]]:
 
 
 def history_model(case, outs) -> List[Dict[str, Any]]:
-    """The model has no AST objects: a translation of an object that was handed to an executor before is the
-    translation of the same text WITHOUT its MetaData (Model.lean `reuseProbe`: extract_metadata removes the MetaData
-    nodes from the caller's object).  The main stream shares only objects without MetaData, where this is the identity."""
+    """The model has no AST objects: a translation of an object that was handed to an executor before (or of a query
+    that contains it) is the translation of the same text with the same MetaData (Model.lean `reuseProbe` is the identity
+    since fix 1c4553a: apply_ast_transformations works on a copy)."""
     impl = _impl()
     res = []
-    seen = set()
     for op, out in zip(case["history"], outs):
         if op["op"] == "new":
             res.append({"o": "new", "b": op["b"]})
         elif op["op"] == "addx":
             res.append({"o": "addx", "e": op["e"], "x": x_model(op["x"])})
         else:
-            lab = op_label(op)
-            md = [] if lab in seen else op_md(op)
-            if lab is not None:
-                seen.add(lab)
+            md = op_md(op)
             res.append({"o": "tr", "e": op["e"], "q": q_model(op_text(op), out["keys"], out["names"], declared=False), "md": [impl.md_to_model(m) for m in md], "r": res_model(out)})
     return res
 
@@ -881,8 +883,7 @@ def abs_state(st: Dict[str, Any]) -> Dict[str, Any]:
         "reg": [list(r) for r in st["reg"]],
         "spaces": st["spaces"],
         "enums": st["enums"],
-        "shared_xmd": st["shared_xmd"],
-        "execs": [{"b": e["b"], "job": e["job"], "inject": e["inject"], "shared": e["shared"], "own": e["own"], "found": [[k, "@", it] for k, items in sorted(e["found"].items()) for it in items]} for e in st["execs"]],
+        "execs": [{"b": e["b"], "job": e["job"], "inject": e["inject"], "xmd": e["xmd"], "found": [[k, "@", it] for k, items in sorted(e["found"].items()) for it in items]} for e in st["execs"]],
         "counter": st["counter"],
     }
 
@@ -895,8 +896,7 @@ def components_impl(st: Dict[str, Any]) -> Dict[str, Any]:
     for n, e in enumerate(st["execs"]):
         c[f"executor {n} backend"] = e["b"]
         c[f"executor {n} job blocks"] = e["job"]
-        c[f"executor {n} shares the default extended_md dict"] = e["shared"]
-        c[f"executor {n} effective extended_md"] = sorted(st["shared_xmd"]) if e["shared"] else sorted(e["own"])
+        c[f"executor {n} extended_md"] = sorted(e["xmd"])
         c[f"executor {n} found extended md"] = {k: v for k, v in sorted(e["found"].items()) if v}
     return c
 
@@ -910,8 +910,7 @@ def components_model(st: Dict[str, Any]) -> Dict[str, Any]:
             found.setdefault(kind, []).append(impl.expected_found_render(kind, proto, fields))
         c[f"executor {n} backend"] = e["b"]
         c[f"executor {n} job blocks"] = e["job"]
-        c[f"executor {n} shares the default extended_md dict"] = e["shared"]
-        c[f"executor {n} effective extended_md"] = sorted(st["shared_xmd"]) if e["shared"] else sorted(e["own"])
+        c[f"executor {n} extended_md"] = sorted(e["xmd"])
         c[f"executor {n} found extended md"] = {k: v for k, v in sorted(found.items())}
     return c
 
@@ -1137,7 +1136,14 @@ def known_stream(ctx):
         if "bad" in g or "bad" in a or "bad" in w:
             continue
         ctx.count("stream:known-findings")
-        if e["input"].get("witness") and not w.get("match"):
+        if g.get("holds", False):
+            if e["status"] == "known":
+                # listed as known, but the input no longer fails on this tree (repaired): nothing to report; the
+                # witness literal, if any, now belongs to a `*_repaired` theorem
+                ctx.count("known-finding-no-longer-fails")
+                ctx.notes.append("listed as `known` but no longer fails (flip to `fixed`): " + e["what"][:100])
+            continue
+        if e["status"] == "known" and e["input"].get("witness") and not w.get("match"):
             ctx.broken.append({"kind": "witness-drift", "finding": e["key"][:80], "theorem_witness": w.get("expected"), "replayed": w.get("got")})
         if not g.get("holds", False):
             if e["status"] == "known":
@@ -1222,6 +1228,18 @@ def fails(ctx, case) -> Optional[Dict[str, Any]]:
     return None
 
 
+def label_defs(case) -> Optional[Dict[str, str]]:
+    """label -> the (query, metadata) the labelled AST object is built from; None if two operations disagree (then the
+    case is not an input: the label would name two different objects)"""
+    defs: Dict[str, str] = {}
+    for o in [x for x in case["history"] if x["op"] == "tr"] + [case["probe"]]:
+        for lab, q, md in ([(o["obj"], o["q"], o["md"])] if o.get("obj") and not o.get("inner") else []) + ([(o["inner"]["obj"], o["inner"]["q"], o["inner"]["md"])] if o.get("inner") else []):
+            d = json.dumps([q, md], sort_keys=True)
+            if defs.setdefault(lab, d) != d:
+                return None
+    return defs
+
+
 def shrink(ctx, case, info):
     """drop operations (never a `new`, so executor numbers stay valid), then metadata dictionaries, while it still fails"""
     changed = True
@@ -1235,7 +1253,7 @@ def shrink(ctx, case, info):
         for i, o in enumerate(h):
             for j in range(len(o.get("md", []))):
                 cands.append({"history": h[:i] + [{**o, "md": o["md"][:j] + o["md"][j + 1 :]}] + h[i + 1 :], "probe": case["probe"]})
-        for c in cands[:40]:
+        for c in [c for c in cands if label_defs(c) is not None][:40]:
             x = fails(ctx, c)
             if x is not None:
                 case, info, changed = c, x, True
@@ -1279,9 +1297,10 @@ LEVEL_TEXT = (
     "function: if every operation of the history is benign for the probe (decidable predicate benignNew/benignOn over "
     "the recorded outcomes) then the probe's result equals the result in a fresh process — on a new executor "
     "(history_indep_partial) and on an existing one (history_indep_on_partial); reset_restores / success_heals_partial "
-    "show that ANY earlier state is repaired by one translation that reaches reset() except enum definitions and the "
-    "shared default dict; retranslation_indep_*_partial: the same for the caller's own AST object translated again, for "
-    "queries without MetaData; twelve leak_counterexample_* theorems show each excluded class really breaks the statement in "
+    "show that ANY earlier state is repaired by one translation that reaches reset() except enum definitions; "
+    "addXmd_invisible_to_new_executors: add_extended_md on any executor never reaches an executor created later (fix "
+    "cfca57a); retranslation_indep_*_partial: the same for the caller's own AST object translated again, with its "
+    "MetaData (fix 1c4553a); ten leak_counterexample_* theorems show each excluded class really breaks the statement in "
     "the model, and each is replayed on the real code as a listed finding. The model is tied to the code on every run by "
     "comparing the observable state after every operation of random histories and by regenerating the backends' default "
     "tables; the property itself is evaluated reference-free (fresh interpreter) on every benign history generated."
@@ -1291,8 +1310,8 @@ LEVEL_NOTE = (
     "View. Sampled, not proved: that the real translator reads nothing else (checked by the fresh-interpreter oracle and "
     "recorded look-ups on every case). Excluded by hypothesis (all listed findings): failed translations that declared a "
     "method type the probe looks up, enum definitions below a name the probe resolves, translations/constructors of "
-    "another backend whose defaults the probe looks up, add_extended_md on a never-reset executor, found extended "
-    "metadata and job blocks left on the probe's own executor, an AST object with MetaData translated a second time. Trusted: Lean kernel (axioms audited), harness, generators."
+    "another backend whose defaults the probe looks up, add_extended_md on the probe's own executor, found extended "
+    "metadata and job blocks left on the probe's own executor. Trusted: Lean kernel (axioms audited), harness, generators."
 )
 TECHNIQUE = "Lean 4 theorems over a hand model of the inter-query state + state-by-state correspondence check against the real executors + reference-free fresh-interpreter oracle"
 DESIGN_REF = "DESIGN.md §4 C07"
